@@ -165,7 +165,12 @@ def ranks_record(B):
     return {"kind": "ranks", "B": B, "rl": rl, "ru": ru}
 
 
+UNDEFINED = -(10 ** 9)  # how an undefined (NaN) number of a returned table is shown to the trace specification
+
+
 def sgn_scaled(x, scale):
+    if float(x) != float(x):
+        return UNDEFINED
     v = int(round(float(x) * scale))
     if v == 0 and float(x) != 0.0:
         v = 1 if x > 0 else -1
@@ -240,6 +245,13 @@ def client_record(seed, with_lists=True):
             crow[c] = 0
         crow["percent_expected_vote"] = rnd.choice([0, 100])
         cur = pd.concat([cur, pd.DataFrame([crow])], ignore_index=True)
+    if seed % 7 == 3:
+        # a fully counted unit one of whose party counts did not arrive: under the default policy the unit is dropped from
+        # the joined data and comes back as an unexpected unit; a missing count counts as no votes (finding F18: it used
+        # to make every contest undefined) - and calls and stops are honoured all the same (seeded change C07_G)
+        jr = int(cur.index[cur.percent_expected_vote >= 100][0])
+        cur["results_dem"] = cur["results_dem"].astype(float)
+        cur.loc[jr, "results_dem"] = float("nan")
     if seed % 3 == 1:
         # a baseline unit whose feed row carries votes but no expected-vote percentage (the provider has not estimated it
         # yet): neither at nor below the threshold - it must not reach the model as an outstanding unit with undefined
@@ -348,7 +360,7 @@ def client_record(seed, with_lists=True):
         )
     return {"kind": "client", "lhs": lhs, "rhs": rhs, "stop": stop, "alphas": alphas, "district": district, "B": mp["B"],
             "lambda": "cv" if lam is None else lam, "stress": stress, "fully_reported": frac == 1.0, "presidential": bool(pres), "groups": groups, "units": units,
-            "set_aside": len(mp.get("unit_blocklist", [])), "empty_contest": bool(empty_contest and with_lists and roles.get("ZE") in ("L", "R"))}
+            "set_aside": len(mp.get("unit_blocklist", [])), "empty_contest": bool(empty_contest and with_lists and roles.get("ZE") in ("L", "R")), "missing_count": seed % 7 == 3}
 
 
 def known_part_record(rnd):
